@@ -33,6 +33,8 @@ type FanSpec struct {
 	// win over measured ones), where the property text settles them; nil = not asserted
 	// HomePath (file fans): the paths are given in the documented "~/..." form
 	HomePath bool `json:"homePath,omitempty"`
+	// ViaLoader: the fan entry goes through a configuration file and fan2go's loader instead of a struct literal
+	ViaLoader bool `json:"viaLoader,omitempty"`
 	// CmdTwice (cmd fans): the setPwm command carries the %pwm% placeholder twice inside one argument
 	CmdTwice bool `json:"cmdTwice,omitempty"`
 	ExpMin   *int `json:"expMin,omitempty"`
@@ -224,6 +226,13 @@ func buildWorld(ctx *Ctx, sc *Scenario) *World {
 		}
 		cfg.NeverStop = sc.Fan.NeverStop
 		cfg.MinPwm, cfg.StartPwm, cfg.MaxPwm = sc.Fan.CfgMin, sc.Fan.CfgStart, sc.Fan.CfgMax
+		if sc.Fan.ViaLoader {
+			loaded, lerr := fanConfigViaLoader(ctx, cfg)
+			if lerr != nil {
+				panic("documented fan entry not loadable: " + lerr.Error())
+			}
+			cfg = loaded
+		}
 		fan, err := fans.NewFan(cfg)
 		if err != nil {
 			panic(err)
@@ -262,6 +271,13 @@ func buildWorld(ctx *Ctx, sc *Scenario) *World {
 		}
 		if sc.Fan.HasRpm {
 			cfg.Cmd.GetRpm = &configuration.ExecConfig{Exec: filepath.Join(dir, "rpm.sh")}
+		}
+		if sc.Fan.ViaLoader {
+			loaded, lerr := fanConfigViaLoader(ctx, cfg)
+			if lerr != nil {
+				panic("documented fan entry not loadable: " + lerr.Error())
+			}
+			cfg = loaded
 		}
 		fan, err := fans.NewFan(cfg)
 		if err != nil {
@@ -661,7 +677,7 @@ func homeKind(r *rand.Rand, kind string) (string, bool) {
 func genFan(r *rand.Rand, kinds []string) (FanSpec, int, int) {
 	kind, home := homeKind(r, pick(r, kinds...))
 	mn, mx := genLimits(r)
-	f := FanSpec{Kind: kind, HomePath: home, NeverStop: r.Intn(3) > 0, HasRpm: r.Intn(5) > 0, HasEnable: r.Intn(4) > 0, HasPwm: true}
+	f := FanSpec{Kind: kind, HomePath: home, ViaLoader: kind != "sim" && r.Intn(4) == 0, NeverStop: r.Intn(3) > 0, HasRpm: r.Intn(5) > 0, HasEnable: r.Intn(4) > 0, HasPwm: true}
 	switch kind {
 	case "hwmon":
 		if part := r.Intn(5); part == 0 {
